@@ -209,13 +209,29 @@ func buildAndRun(d Desc) {
 			procs[n.Name] = spc.NewParamSource(wf, n.Name, n.Values...)
 		case "maptotags":
 			tag := n.Arg
+			only := map[string]string{} // Values "basename=value": tag these files with these values, leave the others untagged
+			for _, kv := range n.Values {
+				if i := strings.Index(kv, "="); i > 0 {
+					only[kv[:i]] = kv[i+1:]
+				}
+			}
 			procs[n.Name] = spc.NewMapToTags(wf, n.Name, func(ip *sp.FileIP) map[string]string {
+				if len(only) > 0 {
+					if v, ok := only[filepath.Base(ip.Path())]; ok {
+						return map[string]string{tag: v}
+					}
+					return map[string]string{}
+				}
 				return map[string]string{tag: filepath.Base(ip.Path())}
 			})
 		case "substream":
 			procs[n.Name] = spc.NewStreamToSubStream(wf, n.Name)
 		case "concat":
-			procs[n.Name] = spc.NewConcatenator(wf, n.Name, n.Arg)
+			cc := spc.NewConcatenator(wf, n.Name, n.Arg)
+			if len(n.Values) > 0 {
+				cc.GroupByTag = n.Values[0]
+			}
+			procs[n.Name] = cc
 		case "splitter":
 			var lines int
 			fmt.Sscanf(n.Arg, "%d", &lines)
